@@ -979,6 +979,7 @@ func naturalOrder(r *vkit.Run) {
 							what += "; a removeDevice clean-up spawned before the synchronisation started after it. " + fixHint
 						}
 					}
+					r.Bucket("natural_order_mismatches", 1)
 					r.Violation(key, what, map[string]any{"case": "natural-order/" + sc.name, "rep": rep, "history": events, "key": k.String(), "observed": a, "expected": exp.short()})
 				}
 			}
